@@ -1,5 +1,8 @@
 #!/usr/bin/env python3
-"""Assemble /verif/seeded/<ID>-<mut>/ from the sub-agents' outputs and my confirmation logs.
+"""One-off assembler, kept for the record: it built /verif/seeded/<ID>-<mut>/ from the sub-agents' scratch
+worktrees under /tmp/wt and the confirmation logs; those worktrees have since been removed, so it
+cannot be re-run.  To re-base the kept patches after a change to /repo use lib/rebase_seeded.py.
+Original description: assemble /verif/seeded/<ID>-<mut>/ from the sub-agents' outputs and my confirmation logs.
 Re-bases every patch on /repo's current HEAD (apply with 3-way fallback, take `git diff`)."""
 import json, os, re, shutil, subprocess, sys, glob
 
